@@ -409,3 +409,37 @@ package eval
 //@   requires [ctx] (and (not (= $ctx 0)) (not (= (fld $ctx VariableFetcher) 0)))
 //@   ensures [frame] (forall ((r Int)) (! (=> (< r (old (next))) (= (select (heap E_Value) r) (select (old (heap E_Value)) r))) :pattern ((select (heap E_Value) r))))
 //@   assigns next E_Value sent.* dyn.* last.err inv.*
+
+// ---------------------------------------------------------------------------
+// C06 — parser entry checks (safety: no index / slice / nil failure).
+//@ fieldinv parser.idx (>= $v 0)
+//@ macro (PARSER $p) (and (not (= $p 0)) (not (= (fld $p conf) 0)) (not (= (fld (fld $p conf) CompileOptions) 0)))
+
+//@ func parser.pos C06
+//@   requires [parser] (not (= $p 0))
+
+//@ func parser.check C06
+//@   requires [parser] (PARSER $p)
+//@   loop 1 (rangeindex)
+//@     invariant [range] (and (<= -1 $rangeindex) (< $rangeindex (len (fld $p tokens))))
+//@     decreases (- (len (fld $p tokens)) $rangeindex)
+
+//@ func parser.parseList.$1 C06 C15 C17
+//@   requires [parser] (and (PARSER $p) (<= 0 (fld $p idx)) (< (fld $p idx) (len (fld $p tokens))))
+//@   loop 1 (j)
+//@     invariant [range] (>= $j 1)
+//@     decreases (- (len $T) $j)
+
+//@ func parser.parseInfixExpression.buildTopOperators C06 C15
+//@   inline
+//@   loop 1 (l)
+//@     invariant [top] (= $l (len $operatorStack))
+//@   loop 2 (i)
+//@     invariant [pops-available] (and (>= $i -1) (< $i (len $children)) (>= (len $outputStack) (+ $i 1)))
+//@     decreases (+ $i 1)
+
+//@ macro (LEAFPARSERS $p) (forall ((j Int)) (! (=> (and (<= (off (fld $p leafNodeParser)) j) (< j (+ (off (fld $p leafNodeParser)) (len (fld $p leafNodeParser)))))
+//@      (not (= (select (arr (fld $p leafNodeParser)) j) 0))) :pattern ((select (arr (fld $p leafNodeParser)) j))))
+//@ func parser.parseInfixExpression C06 C15
+//@   requires [parser] (and (PARSER $p) (not (= (fld (fld $p conf) OperatorMap) 0)) (LEAFPARSERS $p))
+//@   dyncallees parser.parseInt parser.parseStr parser.parseConst parser.parseVariable parser.parseUnknownVariable parser.parseList.$1
